@@ -6,7 +6,9 @@ package main
 import (
 	"fmt"
 	"go/types"
+	"os"
 	"sort"
+	"strconv"
 	"strings"
 )
 
@@ -130,6 +132,15 @@ type Ctx struct {
 
 func newCtx(sr *SortReg) *Ctx {
 	return &Ctx{declared: map[string]bool{}, sorts: sr, strLits: map[string]string{}, axiomSeen: map[string]bool{}}
+}
+
+func envInt(name string, def int) int {
+	if v := os.Getenv(name); v != "" {
+		if n, err := strconv.Atoi(v); err == nil {
+			return n
+		}
+	}
+	return def
 }
 
 func mangle(s string) string {
@@ -268,24 +279,44 @@ func (c *Ctx) render(pc []string, goal string, cover bool, cands []string) strin
 		return b.String()
 	}
 	n := 0
-	in := &instantiator{cands: append([]string(nil), cands...), limit: 900, seen: map[string]bool{}, fresh: &n}
+	in := &instantiator{limit: envInt("GOVC_INST_LIMIT", 600), seen: map[string]bool{}, fresh: &n, max2: envInt("GOVC_CANDS2", 7)}
 	g := goal
 	if strings.Contains(goal, "(forall ") {
 		if t, err := parseSx(goal); err == nil {
 			g = in.skolemize(t).String()
 		}
 	}
+	// skolem constants come first in the candidate list, then the path's index terms, most recent first
+	for i := len(cands) - 1; i >= 0; i-- {
+		in.cands = append(in.cands, cands[i])
+	}
+	// hypotheses: skolemise their existential content, then instantiate their universal content
+	var parsed []*sx
+	var extra []string
+	for _, p := range pc {
+		if !strings.Contains(p, "(forall ") && !strings.Contains(p, "(exists ") {
+			continue
+		}
+		t, err := parseSx(p)
+		if err != nil {
+			continue
+		}
+		if r, ch := in.hypSkolem(t, true); ch {
+			extra = append(extra, r.String())
+			parsed = append(parsed, r)
+		} else {
+			parsed = append(parsed, t)
+		}
+	}
 	for _, d := range in.newDecl {
 		b.WriteString(d + "\n")
 	}
+	for _, e := range extra {
+		b.WriteString("(assert " + e + ")\n")
+	}
 	if len(in.cands) > 0 {
-		for _, p := range pc {
-			if !strings.Contains(p, "(forall ") {
-				continue
-			}
-			if t, err := parseSx(p); err == nil {
-				in.collect(t, nil)
-			}
+		for _, t := range parsed {
+			in.collect(t, nil)
 		}
 		for _, i := range in.out {
 			b.WriteString("(assert " + i + ")\n")
